@@ -3,8 +3,11 @@
 
 mod allocseam;
 mod c01;
+mod c02;
 mod c03;
 mod c04;
+mod c05;
+mod c07;
 mod c15;
 mod c16;
 mod c17;
@@ -19,10 +22,12 @@ mod json;
 mod mirror;
 mod prng;
 mod program;
+mod rm_rows;
 mod rm_verify;
 mod scenario;
 mod seams;
 mod strict;
+mod wfault;
 
 use std::collections::BTreeMap;
 use std::io::Write;
@@ -37,8 +42,11 @@ static GLOBAL: allocseam::Counting = allocseam::Counting;
 fn prop_fn(id: &str) -> Option<(&'static str, PropFn)> {
     Some(match id {
         "C01" => ("C01", c01::run as PropFn),
+        "C02" => ("C02", c02::run as PropFn),
         "C03" => ("C03", c03::run as PropFn),
         "C04" => ("C04", c04::run as PropFn),
+        "C05" => ("C05", c05::run as PropFn),
+        "C07" => ("C07", c07::run as PropFn),
         "C15" => ("C15", c15::run as PropFn),
         "C16" => ("C16", c16::run as PropFn),
         "C17" => ("C17", c17::run as PropFn),
